@@ -177,12 +177,13 @@ type c07World struct {
 	api    map[string]*corev1.Pod              // pod object last delivered by the pod informer
 	gone   map[string]*corev1.Pod              // last object of a deleted pod (for duplicate delete events)
 	resv   map[string]apiext.DeviceAllocations // allocation held by the scheduling cycle until bind / unreserve
+	lost   map[string]bool                     // assigned pods dropped from the ledgers by a late Unreserve, not delivered again yet
 	inc    int
 }
 
 func c07NewWorld() *c07World {
 	return &c07World{cache: newNodeDeviceCache(), api: map[string]*corev1.Pod{}, gone: map[string]*corev1.Pod{},
-		resv: map[string]apiext.DeviceAllocations{}}
+		resv: map[string]apiext.DeviceAllocations{}, lost: map[string]bool{}}
 }
 
 // c07Project is the projection function: NodeDeviceSummary -> {dev: [...], alloc: [...]} (field reads only).
@@ -391,6 +392,16 @@ func (w *c07World) allocate(o *c07Op, pod *corev1.Pod) (apiext.DeviceAllocations
 // apply executes one operation on the real cache. The returned event echoes op + arguments (a trace is also a script)
 // and carries the result; applied=false means the operation is not executable in the current environment (skipped).
 func (w *c07World) apply(o *c07Op) (vu.Ev, bool) {
+	switch o.Op { // the informer delivers the pod (again): a late roll-back is made good by the handler
+	case "touch", "readd", "annotate", "terminate", "unassign", "delete", "add", "restart":
+		defer func(p string) {
+			if o.Op == "restart" {
+				w.lost = map[string]bool{}
+			} else {
+				delete(w.lost, p)
+			}
+		}(o.Pod)
+	}
 	ev := vu.Ev{"op": o.Op}
 	if o.Pod != "" {
 		ev["pod"] = o.Pod
@@ -455,6 +466,20 @@ func (w *c07World) apply(o *c07Op) (vu.Ev, bool) {
 			nd.lock.Unlock()
 		}
 		delete(w.resv, o.Pod)
+	case "lateUnreserve": // the bind was persisted and delivered, but the bind call reported an error: Plugin.Unreserve rolls back
+		if !assigned || w.lost[o.Pod] || cur.Status.Phase == corev1.PodSucceeded || cur.Status.Phase == corev1.PodFailed {
+			return nil, false
+		}
+		held, err := apiext.GetDeviceAllocations(cur.Annotations)
+		if err != nil || len(held) == 0 {
+			return nil, false
+		}
+		if nd := w.cache.getNodeDevice(c07Node, false); nd != nil {
+			nd.lock.Lock()
+			nd.updateCacheUsed(held, cur, false) // state.allocationResult = what Reserve assumed = what PreBind persisted
+			nd.lock.Unlock()
+		}
+		w.lost[o.Pod] = true
 	case "bind": // PreBind wrote the annotation, the pod got bound: the informer delivers the update
 		if assigned || len(w.resv[o.Pod]) == 0 || cur == nil {
 			return nil, false
@@ -813,6 +838,8 @@ func (g *c07Gen) next() c07Op {
 		return g.allocOp(pod)
 	case live:
 		switch {
+		case k >= 19 && k < 25 && !g.w.lost[pod]:
+			return c07Op{Op: "lateUnreserve", Pod: pod}
 		case k < 25:
 			return c07Op{Op: "touch", Pod: pod}
 		case k < 40:
